@@ -1,7 +1,10 @@
 package main
 
 import (
+	"bytes"
 	"encoding/json"
+	"encoding/xml"
+	"io"
 	"fmt"
 	"strings"
 
@@ -44,6 +47,17 @@ func c05Doc(s, pos string) *XElem {
 		e.Items = []XItem{{Kind: 't', Text: s}}
 	case "text+children":
 		e.Items = []XItem{{Kind: 't', Text: s}, {Kind: 'e', Elem: &XElem{Local: "c", Items: []XItem{{Kind: 't', Text: "v"}}}}}
+	}
+	switch pos {
+	case "root-text":
+		return &XElem{Local: "r", Items: []XItem{{Kind: 't', Text: s}}}
+	case "root-attr":
+		return &XElem{Local: "r", Attrs: []XAttr{{Local: "x", Value: s}}}
+	case "root-text+children":
+		return &XElem{Local: "r", Items: []XItem{{Kind: 't', Text: s}, {Kind: 'e', Elem: &XElem{Local: "c"}}}}
+	case "list-members":
+		// <r><e>s</e><e>v</e></r>: decodes to a single-key Map whose value is a list of non-map members
+		return &XElem{Local: "e", Items: []XItem{{Kind: 't', Text: s}}}
 	}
 	return &XElem{Local: "r", Items: []XItem{{Kind: 'e', Elem: e}}}
 }
@@ -104,6 +118,10 @@ func c05Check(c *Ctx, s, pos, enc, mode string, valid bool, hist string) (nontri
 	var refM mxj.Map
 	var refS mxj.MapSeq
 	var err error
+	listRoot := pos == "list-members"
+	if listRoot && isSeq {
+		return false
+	}
 	if isSeq {
 		refS, err = mxj.NewMapXmlSeq(src)
 	} else {
@@ -112,6 +130,19 @@ func c05Check(c *Ctx, s, pos, enc, mode string, valid bool, hist string) (nontri
 	if err != nil {
 		c.Broken("C05: source document does not decode: %q %v", src, err)
 		return
+	}
+	// list-members: the Map {"e":[s,"v"]} - a single key whose value is a list of non-map members
+	// (Map.Xml wraps it in the default root tag)
+	toList := func(m mxj.Map) mxj.Map {
+		if !listRoot || m == nil {
+			return m
+		}
+		return mxj.Map{"e": []interface{}{m["e"], "v"}}
+	}
+	refM = toList(refM)
+	if listRoot {
+		// what a plain decode of the default-root wrapping denotes
+		refM = mxj.Map{"doc": map[string]interface{}{"e": []interface{}{refM["e"].([]interface{})[0], "v"}}}
 	}
 	c05SetMode(mode, valid, hist)
 	var m mxj.Map
@@ -123,6 +154,7 @@ func c05Check(c *Ctx, s, pos, enc, mode string, valid bool, hist string) (nontri
 			ms, err = mxj.NewMapXmlSeq(src)
 		} else {
 			m, err = mxj.NewMapXml(src)
+			m = toList(m)
 		}
 		if err != nil {
 			return
@@ -166,6 +198,10 @@ func c05Check(c *Ctx, s, pos, enc, mode string, valid bool, hist string) (nontri
 			// (c): an error, or well-formed output
 			if err == nil {
 				if werr := wellFormed(out); werr != nil {
+					if tokenizes(out) {
+						// every token is fine for encoding/xml, but there is content after the root element
+						shape = "tokenizable-content-after-root"
+					}
 					c.Violate(enc, "invalid-output-without-error", shape, cas, nil, fmt.Sprintf("s=%q output=%q is not well formed (%v) yet no error was returned", s, out, werr))
 				}
 			}
@@ -177,13 +213,13 @@ func c05Check(c *Ctx, s, pos, enc, mode string, valid bool, hist string) (nontri
 
 func c05Run(c *Ctx) {
 	mustBeDefault(c)
-	c.S.Rule = "cases = (string, position, encoder, escaping mode, validity check, option history): strings are all words of <= K tokens over {a, 1, space, tab, newline, &, <, >, \", ', e-acute, &amp;, &#x41;, ]]>, <![CDATA[}; positions element text, attribute value, text beside an attribute, text before a child element; encoders Map.Xml, Map.XmlIndent, MapSeq.Xml, MapSeq.XmlIndent; modes encoder-side escaping, decoder-side escaping (reached by the five documented call histories of the two switches), escaping off with validity check on/off. Oracle: with escaping the output is well formed and a plain decode gives exactly the values a plain decode of the correctly-escaped source gives; with escaping off and validity on: error or well-formed output; always no panic. non-trivial = the string contains an XML special character."
+	c.S.Rule = "cases = (string, position, encoder, escaping mode, validity check, option history): strings are all words of <= K tokens over {a, 1, space, tab, newline, &, <, >, \", ', e-acute, &amp;, &#x41;, ]]>, <![CDATA[, </r>, /}; positions element text, attribute value, text beside an attribute, text before a child element, the same three directly in the root element, and a member of a top-level list (default-root wrapping); encoders Map.Xml, Map.XmlIndent, MapSeq.Xml, MapSeq.XmlIndent; modes encoder-side escaping, decoder-side escaping (reached by the five documented call histories of the two switches), escaping off with validity check on/off. Oracle: with escaping the output is well formed and a plain decode gives exactly the values a plain decode of the correctly-escaped source gives; with escaping off and validity on: error or well-formed output; always no panic. non-trivial = the string contains an XML special character."
 	c.S.Assumptions = []string{"the Map/MapSeq under test is obtained by decoding a correctly escaped document that holds the string (decoders validated by C01/C04)"}
 	k := 3
 	if c.Thorough {
 		k = 4
 	}
-	alpha := []string{"a", "1", " ", "\t", "\n", "&", "<", ">", "\"", "'", "é", "&amp;", "&#x41;", "]]>", "<![CDATA["}
+	alpha := []string{"a", "1", " ", "\t", "\n", "&", "<", ">", "\"", "'", "é", "&amp;", "&#x41;", "]]>", "<![CDATA[", "</r>", "/"}
 	var words []string
 	seqs(alpha, k, func(s []string) { words = append(words, strings.Join(s, "")) })
 	if c.Shard == 0 {
@@ -196,7 +232,7 @@ func c05Run(c *Ctx) {
 	}
 	modes := []mode{{"enc", false, ""}, {"enc", true, ""}, {"dec", false, ""}, {"dec", false, "enc-then-dec"}, {"dec", false, "enc-then-dec-toggle"},
 		{"dec", false, "dec-then-enc"}, {"dec", false, "dec-then-enc-toggle"}, {"dec", true, ""}, {"off", true, ""}, {"off", false, ""}}
-	for _, pos := range []string{"text", "attr", "text+attr", "text+children"} {
+	for _, pos := range []string{"text", "attr", "text+attr", "text+children", "root-text", "root-attr", "root-text+children", "list-members"} {
 		for _, enc := range []string{"Map.Xml", "Map.XmlIndent", "MapSeq.Xml", "MapSeq.XmlIndent"} {
 			for _, md := range modes {
 				for wi, w := range words {
@@ -223,4 +259,18 @@ func c05Run(c *Ctx) {
 	}
 	rt.OrderPolicy = rt.PolicySorted
 	resetOptions()
+}
+
+// tokenizes: encoding/xml's Token() reads the text to EOF without error (what XmlCheckIsValid tests).
+func tokenizes(x []byte) bool {
+	d := xml.NewDecoder(bytes.NewReader(x))
+	for {
+		_, err := d.Token()
+		if err == io.EOF {
+			return true
+		}
+		if err != nil {
+			return false
+		}
+	}
 }
